@@ -28,6 +28,27 @@ PROPS["C05"] = {
     ],
 }
 
+PROPS["C04"] = {
+    "rule": "rapid-generated VAA values (all field ranges, payload 0..3000, sub-second times) with a header variation and one "
+            "single-field body mutation each; non-trivial = payload length differs from the suite's 6-byte vector and at least "
+            "one body field sits on a boundary value",
+    "assumptions": ["reference body/digest in harness/common/refvaa.go written from the statement", "go-ethereum keccak trusted"],
+    "units": [
+        U("TestVerif_C04_Digest", "./pkg/vaa", R(40000), R(200000, shards=16, timeout=900)),
+    ],
+}
+
+PROPS["C06"] = {
+    "rule": "guardian lists of length 0..255 (optionally with repeated addresses), ascending signer subsets, zero or one "
+            "corruption (body flip, swap, duplicate, re-index, outsider key, malformed recovery byte, zeroed r/s, list shorter "
+            "than the indices); non-trivial = at least 4 signatures, or repeated addresses, or a corruption applied",
+    "assumptions": ["reference verifier in harness/common/refvaa.go; trusted: go-ethereum Ecrecover/Keccak256",
+                    "'no guardian counted twice' is read as: recovered signer addresses pairwise distinct (matters only for lists with repeated addresses)"],
+    "units": [
+        U("TestVerif_C06_Verify", "./pkg/vaa", R(4000), R(25000, shards=16, timeout=900)),
+    ],
+}
+
 def setup():
     """MANIFEST.setup_cmd: create stubs and warm the build cache for every harness binary."""
     work = os.path.join(vdriver.WORKROOT, "setup-%d" % os.getpid())
